@@ -86,3 +86,9 @@ check('C04', 'refmodel', 'exploration', 'runtime value oracle: float64 factor re
       'After every step (and around eval passes) the factors in state_dict() are compared with decay*previous+(1-decay)*mean second moment (identity start, micro-batch and cross-rank mean, '
       'loss-scale division), must be bitwise unchanged on non-update steps, symmetric, PSD and stored in the requested dtype.',
       'The conv normalisation convention is fixed in DESIGN.md 2.2; bfloat16 factors get a looser (still discriminating) bound.', 'DESIGN.md §3 C04')
+
+check('C07', 'refmodel', 'exploration', 'runtime value oracle: clip scale fitted from before/after gradients vs the formula evaluated on the float64 solve; single process and simulated ranks',
+      'Generated models, learning rates and clip values (constant, callable, None, huge), zero-gradient steps and negative-curvature states: the fitted common scale must equal '
+      'min(1, sqrt(kl/|sum<V,D> lr^2|)) at the current step, every layer must be the same multiple of V, the KL bound must hold, kl_clip=None must be accepted and leave R=V; '
+      'on 2-4 simulated ranks every rank must use the same scalar under every gradient-worker count.',
+      'Factors read from state_dict(); optional probe of _compute_grad_scale is compared when present.', 'DESIGN.md §3 C07')
